@@ -8,37 +8,46 @@ SEEDED = os.path.join(HERE, 'seeded')
 ids = sys.argv[1:] or sorted(d for d in os.listdir(SEEDED) if os.path.isdir(os.path.join(SEEDED, d)))
 extra = {}
 summary = []
-WT = '/tmp/wt/seedrun-%d' % os.getpid()
-subprocess.run(['git', '-C', '/repo', 'worktree', 'add', '-q', '--detach', WT, 'HEAD'], check=True)
-try:
-  for mid in ids:
-    d = os.path.join(SEEDED, mid)
-    pid = mid.split('-')[0]
-    subprocess.run(['git', '-C', WT, 'checkout', '-q', '--', '.'])
-    subprocess.run(['git', '-C', WT, 'clean', '-fdq'])
-    ap = subprocess.run(['git', '-C', WT, 'apply', os.path.join(d, 'patch.diff')], capture_output=True, text=True)
-    meta_p = os.path.join(d, 'meta.json')
-    meta = json.load(open(meta_p)) if os.path.exists(meta_p) else {}
-    notes = open(os.path.join(d, 'notes.md')).read() if os.path.exists(os.path.join(d, 'notes.md')) else ''
-    meta.update({'id': mid, 'property': meta.get('property') or pid, 'base_commit': open(os.path.join(d, '.base')).read().strip() if os.path.exists(os.path.join(d, '.base')) else None,
-                 'needs_to_manifest': meta.get('needs_to_manifest') or notes[:1500],
-                 'confirmed_by': 'tools/confirm_mutant.sh: patch applied in a scratch worktree, 82 repository tests pass, demo.py exits 1 with the change and 0 without'})
-    if ap.returncode != 0:
-        meta['detection'] = {'status': 'patch no longer applies to /repo HEAD (a later fix: commit touched the same lines)', 'stderr': ap.stderr[-300:]}
-        print(mid, 'PATCH-DOES-NOT-APPLY')
-    else:
-        env = dict(os.environ, VERIF_NO_EVIDENCE='1', VERIF_REPO=WT, PYTHONPATH=WT)
-        t = subprocess.run(['/venv/bin/python', '-m', 'pytest', '-q', '-p', 'no:cacheprovider'], cwd=WT, capture_output=True, text=True, env=env).stdout.strip().splitlines()[-1]
-        checks = meta.get('checks') or [pid]
-        det = {}
-        for c in checks:
-            r = subprocess.run([os.path.join(HERE, 'bin/check'), c, '--tier', 'quick'], cwd=HERE, capture_output=True, text=True, env=env)
-            what = re.findall(r'^  what: (.*)$', r.stdout, re.M)
-            det[c] = {'exit': r.returncode, 'violation_lines': len(re.findall(r'^VIOLATION', r.stdout, re.M)), 'first': what[0][:300] if what else None}
-        meta['detection'] = {'repo_tests_with_change': t, 'checks': det, 'detected': any(v['exit'] == 1 for v in det.values())}
-        print(mid, 'tests:', t, '|', {c: v['exit'] for c, v in det.items()}, '|', (list(det.values())[0]['first'] or '')[:120])
-    json.dump(meta, open(meta_p, 'w'), indent=1)
-    summary.append((mid, meta['detection'].get('detected')))
-finally:
-  subprocess.run(['git', '-C', '/repo', 'worktree', 'remove', '--force', WT])
+from concurrent.futures import ThreadPoolExecutor
+JOBS = int(os.environ.get('SEEDED_JOBS') or 1)
+
+
+def one(mid):
+    WT = '/tmp/wt/seedrun-%d-%s' % (os.getpid(), mid)
+    subprocess.run(['git', '-C', '/repo', 'worktree', 'add', '-q', '--detach', WT, 'HEAD'], check=True)
+    try:
+        d = os.path.join(SEEDED, mid)
+        pid = mid.split('-')[0]
+        ap = subprocess.run(['git', '-C', WT, 'apply', os.path.join(d, 'patch.diff')], capture_output=True, text=True)
+        meta_p = os.path.join(d, 'meta.json')
+        meta = json.load(open(meta_p)) if os.path.exists(meta_p) else {}
+        notes = open(os.path.join(d, 'notes.md')).read() if os.path.exists(os.path.join(d, 'notes.md')) else ''
+        meta.update({'id': mid, 'property': meta.get('property') or pid, 'base_commit': open(os.path.join(d, '.base')).read().strip() if os.path.exists(os.path.join(d, '.base')) else None,
+                     'needs_to_manifest': meta.get('needs_to_manifest') or notes[:1500],
+                     'confirmed_by': 'tools/confirm_mutant.sh: patch applied in a scratch worktree, 82 repository tests pass, demo.py exits 1 with the change and 0 without'})
+        if ap.returncode != 0:
+            meta['detection'] = {'status': 'patch no longer applies to /repo HEAD (a later fix: commit touched the same lines)', 'stderr': ap.stderr[-300:]}
+            line = mid + ' PATCH-DOES-NOT-APPLY'
+        else:
+            env = dict(os.environ, VERIF_NO_EVIDENCE='1', VERIF_REPO=WT, PYTHONPATH=WT)
+            t = subprocess.run(['/venv/bin/python', '-m', 'pytest', '-q', '-p', 'no:cacheprovider'], cwd=WT, capture_output=True, text=True, env=env).stdout.strip().splitlines()[-1]
+            checks = meta.get('checks') or [pid]
+            det = {}
+            for c in checks:
+                r = subprocess.run([os.path.join(HERE, 'bin/check'), c, '--tier', 'quick'], cwd=HERE, capture_output=True, text=True, env=env)
+                what = re.findall(r'^  what: (.*)$', r.stdout, re.M)
+                det[c] = {'exit': r.returncode, 'violation_lines': len(re.findall(r'^VIOLATION', r.stdout, re.M)), 'first': what[0][:300] if what else None}
+            meta['detection'] = {'repo_tests_with_change': t, 'checks': det, 'detected': any(v['exit'] == 1 for v in det.values())}
+            first = next((v['first'] for v in det.values() if v['first']), '') or ''
+            line = '%s tests: %s | %s | %s' % (mid, t, {c: v['exit'] for c, v in det.items()}, first[:120])
+        json.dump(meta, open(meta_p, 'w'), indent=1)
+        return mid, meta['detection'].get('detected'), line
+    finally:
+        subprocess.run(['git', '-C', '/repo', 'worktree', 'remove', '--force', WT])
+
+
+with ThreadPoolExecutor(JOBS) as ex:
+    for mid, detd, line in ex.map(one, ids):
+        print(line, flush=True)
+        summary.append((mid, detd))
 print('detected %d / %d' % (sum(1 for _, d in summary if d), len(summary)))
